@@ -287,12 +287,15 @@ example : (Tok.result [82, 69, 83, 85, 76, 84, 32, 50] [79, 75]).Valid := by
 
 /-- **isolation.**  Whatever one listener does — any bytes on its stdout in any fragmentation, EOF, its stdin
     becoming writable, a pipe fault, its death (`f` ranges over all listener-level operations, and over everything
-    else of type `S → S`) — no pool other than its own changes in any way, and inside its own pool no other
-    listener changes: the only things it can touch are its own state and its pool's buffer and poolserial counter. -/
+    else of type `S → S`) — no pool that does not own that listener's process *object* changes in any way (its name
+    may well occur there too), and inside its own pool no other listener changes: the only things it can touch are
+    its own state and its pool's buffer and poolserial counter. -/
 theorem isolation (pi li : Nat) (f : Listener.S → Listener.S) (w : Pool.W) :
-    (∀ j, j ≠ pi → (Pool.onListener pi li f w).pools[j]? = w.pools[j]?) ∧
+    (∀ j, j ≠ pi → (∀ p, w.pools[j]? = some p → Pool.owns p (Pool.whoOf w pi li) = false) →
+      (Pool.onListener pi li f w).pools[j]? = w.pools[j]?) ∧
     (∀ (p p' : Pool.PoolSt) (k : Nat), w.pools[pi]? = some p → (Pool.onListener pi li f w).pools[pi]? = some p' →
-      k ≠ li → p'.procs[k]? = p.procs[k]?) :=
-  Pool.onListener_isolated pi li f w
+      k ≠ li → p'.procs[k]? = p.procs[k]?) := by
+  obtain ⟨h1, h2⟩ := Pool.onListener_isolated pi li f w
+  exact ⟨h1, fun p p' k a b c => (h2 p p' k a b c).1⟩
 
 end Sv.Props.C10
